@@ -93,6 +93,11 @@ type Req struct {
 	// scale (scale_test.go): that many further unconfigured headers X-Pad-<i>, one unconfigured header X-Pad-Big of that size
 	PadHeaders  int `json:"pad_headers,omitempty"`
 	PadValueLen int `json:"pad_value_len,omitempty"`
+
+	// fault injection (fault_test.go): this request is served while ONE dependency of the
+	// handler fails (the request body as a failing reader / a broken transfer over a real
+	// socket, the response writer, the decoy page file); lifted for the requests after it
+	Fault *Fault `json:"fault,omitempty"`
 }
 
 // BulkAt: a bulk of requests served before Reqs[At] (At == len(Reqs): after the last one).
@@ -105,6 +110,7 @@ type Case struct {
 	Cfg   Cfg      `json:"cfg"`
 	Reqs  []Req    `json:"reqs"`
 	Bulks []BulkAt `json:"bulks,omitempty"` // scale: requests per listener instance
+	Page  string   `json:"page,omitempty"`  // "present": the case runs in a working directory that has the decoy page (fault_test.go); "" = the harness's own (page missing)
 }
 
 // ---------------------------------------------------------------------------- generator
@@ -679,6 +685,15 @@ func gen(t *rapid.T) Case {
 			c.Bulks = append(c.Bulks, BulkAt{at, b})
 		}
 	}
+	// about one case in 4: ONE request of the case is served while one dependency fails (fault_test.go)
+	if isFaultCase(t) {
+		var ps []*Req
+		for i := range c.Reqs {
+			ps = append(ps, &c.Reqs[i])
+		}
+		attachFault(t, c.Cfg, ps)
+		c.Page = "present"
+	}
 	return c
 }
 
@@ -771,7 +786,8 @@ func judge(c Cfg, r Req) verdict {
 			}
 			continue
 		case "Content-Length":
-			if want != fmt.Sprint(regBodyLen()) {
+			// the Content-Length the request announces (fault_test.go: it may differ from what is delivered)
+			if got, ok := announcedContentLength(r); !ok || want != got {
 				bad = append(bad, "content-length-entry")
 			}
 			continue
@@ -1007,11 +1023,13 @@ func run(c Case, report func(*core.Violation)) {
 	h, rec, stop := startListener(c.Cfg)
 	defer stop()
 	rec.Take()
+	if c.Page == "present" {
+		defer enterPageRoot()()
+	}
 	served := 0
 	serveOne := func(r Req, i int, agentID uint32, pv *verdict, note lazyStr) {
-		w := httptest.NewRecorder()
 		nBefore := len(rec.Sessions)
-		h.GinEngine.ServeHTTP(w, buildRequest(r, agentID))
+		w, r, fx := deliver(h.GinEngine, r, agentID, c.Page == "present")
 		ev := effects(rec.Take())
 		newSessions := rec.Sessions[nBefore:]
 		admitted := len(newSessions) > 0
@@ -1020,7 +1038,7 @@ func run(c Case, report func(*core.Violation)) {
 				admitted = true
 			}
 		}
-		assess(c.Cfg, r, i, agentID, w, admitted, newSessions, fmt.Sprint(ev), "", "", pv, note, report)
+		assess(c.Cfg, r, i, agentID, w, admitted, newSessions, fmt.Sprint(ev), "", "", pv, note, report, fx)
 		served++
 	}
 	bulkID := uint32(0x0C200000)
@@ -1054,9 +1072,15 @@ func run(c Case, report func(*core.Violation)) {
 // assess judges one served request against the configuration in force (cfg) and
 // reports what contradicts the statement.  pre/post qualify the signatures (sub-check h).
 // pv: the verdict when the caller has it already (bulks); note: appended to the message.
-func assess(cfg Cfg, r Req, i int, agentID uint32, w *httptest.ResponseRecorder, admitted bool, newSessions []*agent.Agent, ev string, pre, post string, pv *verdict, note lazyStr, report0 func(*core.Violation)) {
+func assess(cfg Cfg, r Req, i int, agentID uint32, w *httptest.ResponseRecorder, admitted bool, newSessions []*agent.Agent, ev string, pre, post string, pv *verdict, note lazyStr, report0 func(*core.Violation), fx *faultView) {
+	if fx != nil && fx.f != nil {
+		post += "|under-fault:" + fx.f.Dep // a finding under a fault is a finding of its own
+	}
 	report := func(v *core.Violation) {
 		v.Sig = pre + v.Sig + post
+		if fx != nil {
+			v.Msg += fx.describe()
+		}
 		if note != nil {
 			v.Msg += note()
 		}
@@ -1068,6 +1092,13 @@ func assess(cfg Cfg, r Req, i int, agentID uint32, w *httptest.ResponseRecorder,
 	} else {
 		v = judge(cfg, r)
 	}
+	// the verdict of the profile alone; a request that passes it reaches the agent protocol, which
+	// decides on the bytes it got: with an incomplete body it may refuse them (fault_test.go)
+	profile := v
+	if fx != nil && !fx.bodyComplete && v.MustAdmit {
+		v = verdict{Reasons: []string{"body-incomplete"}}
+	}
+	observable := fx == nil || !fx.unobservable // the peer reset the connection: no answer to look at
 	// built only when a violation is reported (bulks serve thousands of requests)
 	where := lazyStr(func() string {
 		return fmt.Sprintf("request %d (%s %q host=%q(%s) ua=%v/%q headers=%v extra=%v pad=%d/%d peer=%s mut=%q) against cfg %+v", i, r.Method, r.URI, r.Host, r.HostClass, r.HasUA, r.UA, r.Headers, r.Extra, r.PadHeaders, r.PadValueLen, r.Peer, r.Mut, cfg)
@@ -1082,13 +1113,16 @@ func assess(cfg Cfg, r Req, i int, agentID uint32, w *httptest.ResponseRecorder,
 		return
 	}
 	if !admitted {
-		if w.Code != http.StatusNotFound {
+		if observable && w.Code != http.StatusNotFound {
 			report(core.V("reject|status-not-404|"+r.Method, "%s was not admitted but answered %d instead of the decoy 404", where, w.Code))
 			return
 		}
 		if ev != "[]" || len(newSessions) > 0 {
 			report(core.V("reject|side-effect", "%s got the 404 but changed state: events %v", where, ev))
 			return
+		}
+		if fx != nil && observable {
+			assessDecoy(cfg, r, w, fx, profile, where, report)
 		}
 		return
 	}
@@ -1106,13 +1140,24 @@ func assess(cfg Cfg, r Req, i int, agentID uint32, w *httptest.ResponseRecorder,
 	var idLE [4]byte
 	binary.LittleEndian.PutUint32(idLE[:], agentID)
 	wantBody := demonref.XCrypt(idLE[:], key, iv) // Demon: TransportInit decrypts the answer and compares it with its id
-	if w.Code != http.StatusOK || !bytes.Equal(w.Body.Bytes(), wantBody) {
+	if !observable {
+		// nothing of the answer can be seen; the session and its address still can
+	} else if fx != nil && fx.writerFailed {
+		// the writer broke: the status and the headers went out before, the body as far as the writer took it
+		if w.Code != http.StatusOK || !bytes.HasPrefix(wantBody, w.Body.Bytes()) {
+			report(core.V("admit|bad-reply", "%s: admitted but answered %d %x, want 200 and a prefix of %x", where, w.Code, w.Body.Bytes(), wantBody))
+			return
+		}
+	} else if w.Code != http.StatusOK || !bytes.Equal(w.Body.Bytes(), wantBody) {
 		report(core.V("admit|bad-reply", "%s: admitted but answered %d %x, want 200 %x", where, w.Code, w.Body.Bytes(), wantBody))
 		return
 	}
 	// response headers with their full values
 	res := w.Result()
 	for _, rh := range cfg.RespHeaders {
+		if !observable {
+			break
+		}
 		n, want := splitCfgHeader(rh)
 		vals := res.Header.Values(n)
 		ok := false
@@ -1232,7 +1277,7 @@ func classify(c Case) core.Class {
 	}
 	cl.Labels = append(cl.Labels, fates.labels()...)
 	var fp []string
-	for _, r := range c.Reqs {
+	for i, r := range c.Reqs {
 		v := judge(c.Cfg, r)
 		kind := "grey:" + strings.Join(v.Reasons, "+")
 		switch {
@@ -1256,6 +1301,7 @@ func classify(c Case) core.Class {
 		}
 		cl.Labels = append(cl.Labels, nameClassReqLabels(nameClasses, r, v)...)
 		cl.Labels = append(cl.Labels, unicodeReqLabels(r, v)...)
+		cl.Labels = append(cl.Labels, faultLabels(c.Cfg, r, i, len(c.Reqs))...)
 		if nc >= 1 && (v.MustAdmit || (v.MustReject && len(v.Reasons) == 1)) {
 			cl.NonTrivial = true
 			fp = append(fp, kind)
@@ -1265,7 +1311,11 @@ func classify(c Case) core.Class {
 		fp = fp[:1] // the first non-trivial request characterises the case
 	}
 	cl.Fingerprint = fmt.Sprintf("c=%s|redir=%v|hh=%v|%s|%s", bucket(nc), c.Cfg.BehindRedir, c.Cfg.HostHeader != "", cfgFeatures(c.Cfg), strings.Join(fp, ","))
+	if c.Page == "present" {
+		cl.Labels = append(cl.Labels, "decoy-page:present-in-working-directory")
+	}
 	noteScale("a", cl.Labels)
+	noteFaults("a", cl.Labels)
 	return cl
 }
 
@@ -1328,13 +1378,14 @@ func TestMain(m *testing.M) {
 	if secureLoot != "" {
 		os.RemoveAll(secureLoot)
 	}
+	removePageRoot()
 	os.Exit(code)
 }
 
 func TestC12a(t *testing.T) {
 	core.Run(t, core.Spec[Case]{
 		Property: "C12", Sub: "a",
-		Rule: "every field of HTTPConfig is drawn: besides those below, 1-3 Hosts with/without port, HostHeader (unset / a name / name:port / equal to a host / resembling one), rotation, PortConn, proxy settings, kill date, working hours, method spelling, TLS (rarely - about 1/3000 quick, 1/1500 thorough: a real certificate is generated); requests additionally draw Request.Host (the canonical one = HostHeader or a host, case variant, port added/removed, one of Hosts, the bind address, garbage, empty, another host) and 0-3 further headers with names that are not configured (X-Forwarded-Host, Referer, Origin, Cookie, Content-Type, X-Real-IP, Forwarded, Authorization): by the statement none of these influences admission. Admission-relevant part: listener configuration (0-4 URIs with/without query or the [\"\"] form, user agent set/unset, 0-4 request headers 'Name: value' incl. the ignored Connection/Accept-Encoding and values containing ': ' and ':', 0-3 response headers with values containing ':', redirector flag) on the real handlers.HTTP after Start(); 1-6 requests generated around that configuration: the canonical Demon request, or with one / several of {GET,PUT,HEAD, wrong path, extra query, path case, path suffix, header missing/wrong/case/truncated/extended, user agent wrong/missing/case, ignored header altered; Unicode classes: a configured header value / the user agent / the URI with one letter replaced by a Unicode simple-case-folding partner outside the ASCII pair (long s U+017F for s, Kelvin sign U+212A for k, final sigma / sigma, micro sign / mu, Greek symbol variants) or by a confusable (fullwidth form, combining mark appended, the other normalisation form NFC/NFD, Cyrillic / Greek / Turkic look-alike incl. dotted capital I), the URI also percent-encoded - the pools of configured values contain s / k / sigma / micro / sharp s / composed letters for that; header repeated in the request with another value before / after the right one}, IPv4 and IPv6 peers, X-Forwarded-For present or not; body = valid registration. Header-NAME classes (4 of 10 configurations; each verified against HEAD over a real socket before it was modelled): entries of the Headers list named User-Agent (UserAgent setting unset / the same value / a different value), Host (HostHeader unset / set), Content-Length (equal to the body length or not), Content-Type, Cookie, Connection / Accept-Encoding, the same name twice (same / different values), a name differing only in case from another entry, names in non-canonical case (lower / upper), a name with a trailing blank; requests follow the configuration (user agent from the setting or, when only the Headers list names one, from the entry; Request.Host from the Host entry in half of the cases; stack-owned names are not sent as ordinary headers) and are mutated at those entries (user agent wrong / missing / case / fold partner / confusable, that header missing / different / truncated / extended / repeated); every request is judged on Request.Header as net/http delivers it (canonical names, no Host, Content-Length = body length, a name that is not a token undeliverable): admitted only if it matches method, URI, the UserAgent setting AND every entry the documented skip list (Connection, Accept-Encoding) does not exempt - a User-Agent entry is a header like any other (same lower-case form), a Host entry is matched against Request.Host (equal: accepted either way, HEAD never finds Host in Request.Header; different: decoy), a Content-Length entry against the body length, an undeliverable name rejects everything, a header repeated in the request that carries the configured value among its values is accepted either way. Oracle from the statement: a header value counts as 'the configured value' when it is byte-equal (must admit) or has the same lower-case form (the documented case-insensitive comparison: grey, accepted either way - that includes the Kelvin sign for k and dotted capital I for i, whose lower-case forms are k and i); a value that merely case-FOLDS to the configured one (long s, final sigma, micro sign) or is a confusable of it is a different value and must get the decoy, and the user agent and the URI compare exactly; admitted => all constraints hold; all hold => admitted with 200 + registration reply + every response header with its full value + ExternalIP = peer IP (or X-Forwarded-For iff redirector); otherwise 404 and no recorder event. SCALE (about one case in 60; one count per case from the threshold-adjacent pool {63,64,65, 127..129, 255..257, 511..513, 999..1001, 1023..1025, 2047..2049, 4095..4097, 8191..8193}): requests served by one listener instance - a bulk of 1-3 request templates (one mutation / several / canonical / GET), each sent its share of the total, interleaved, placed before, between or after the ordinary requests or split around them, through the same gin engine, EVERY request judged by the ordinary oracle (totals up to 8193; templates that may be admitted are cut at 2049 per bulk in the quick tier, 8193 in the thorough one); configured request headers / URIs / hosts of the listener (cut at 1025 entries, inserted before / in the middle of / after the ordinary ones; HEAD accepts them), the size of one configured header value (up to 8193 bytes), unconfigured headers per request (up to 8193) and the size of one request header (up to 8193 bytes); labels scale:<what>:<bucket>, tallied in the evidence's extra block. Non-trivial: >=1 configured constraint and a request that satisfies all or violates exactly one; distinct = (constraint bucket, redirector, config feature, verdict kind of the first non-trivial request)",
+		Rule: "every field of HTTPConfig is drawn: besides those below, 1-3 Hosts with/without port, HostHeader (unset / a name / name:port / equal to a host / resembling one), rotation, PortConn, proxy settings, kill date, working hours, method spelling, TLS (rarely - about 1/3000 quick, 1/1500 thorough: a real certificate is generated); requests additionally draw Request.Host (the canonical one = HostHeader or a host, case variant, port added/removed, one of Hosts, the bind address, garbage, empty, another host) and 0-3 further headers with names that are not configured (X-Forwarded-Host, Referer, Origin, Cookie, Content-Type, X-Real-IP, Forwarded, Authorization): by the statement none of these influences admission. Admission-relevant part: listener configuration (0-4 URIs with/without query or the [\"\"] form, user agent set/unset, 0-4 request headers 'Name: value' incl. the ignored Connection/Accept-Encoding and values containing ': ' and ':', 0-3 response headers with values containing ':', redirector flag) on the real handlers.HTTP after Start(); 1-6 requests generated around that configuration: the canonical Demon request, or with one / several of {GET,PUT,HEAD, wrong path, extra query, path case, path suffix, header missing/wrong/case/truncated/extended, user agent wrong/missing/case, ignored header altered; Unicode classes: a configured header value / the user agent / the URI with one letter replaced by a Unicode simple-case-folding partner outside the ASCII pair (long s U+017F for s, Kelvin sign U+212A for k, final sigma / sigma, micro sign / mu, Greek symbol variants) or by a confusable (fullwidth form, combining mark appended, the other normalisation form NFC/NFD, Cyrillic / Greek / Turkic look-alike incl. dotted capital I), the URI also percent-encoded - the pools of configured values contain s / k / sigma / micro / sharp s / composed letters for that; header repeated in the request with another value before / after the right one}, IPv4 and IPv6 peers, X-Forwarded-For present or not; body = valid registration. Header-NAME classes (4 of 10 configurations; each verified against HEAD over a real socket before it was modelled): entries of the Headers list named User-Agent (UserAgent setting unset / the same value / a different value), Host (HostHeader unset / set), Content-Length (equal to the body length or not), Content-Type, Cookie, Connection / Accept-Encoding, the same name twice (same / different values), a name differing only in case from another entry, names in non-canonical case (lower / upper), a name with a trailing blank; requests follow the configuration (user agent from the setting or, when only the Headers list names one, from the entry; Request.Host from the Host entry in half of the cases; stack-owned names are not sent as ordinary headers) and are mutated at those entries (user agent wrong / missing / case / fold partner / confusable, that header missing / different / truncated / extended / repeated); every request is judged on Request.Header as net/http delivers it (canonical names, no Host, Content-Length = body length, a name that is not a token undeliverable): admitted only if it matches method, URI, the UserAgent setting AND every entry the documented skip list (Connection, Accept-Encoding) does not exempt - a User-Agent entry is a header like any other (same lower-case form), a Host entry is matched against Request.Host (equal: accepted either way, HEAD never finds Host in Request.Header; different: decoy), a Content-Length entry against the body length, an undeliverable name rejects everything, a header repeated in the request that carries the configured value among its values is accepted either way. Oracle from the statement: a header value counts as 'the configured value' when it is byte-equal (must admit) or has the same lower-case form (the documented case-insensitive comparison: grey, accepted either way - that includes the Kelvin sign for k and dotted capital I for i, whose lower-case forms are k and i); a value that merely case-FOLDS to the configured one (long s, final sigma, micro sign) or is a confusable of it is a different value and must get the decoy, and the user agent and the URI compare exactly; admitted => all constraints hold; all hold => admitted with 200 + registration reply + every response header with its full value + ExternalIP = peer IP (or X-Forwarded-For iff redirector); otherwise 404 and no recorder event. SCALE (about one case in 60; one count per case from the threshold-adjacent pool {63,64,65, 127..129, 255..257, 511..513, 999..1001, 1023..1025, 2047..2049, 4095..4097, 8191..8193}): requests served by one listener instance - a bulk of 1-3 request templates (one mutation / several / canonical / GET), each sent its share of the total, interleaved, placed before, between or after the ordinary requests or split around them, through the same gin engine, EVERY request judged by the ordinary oracle (totals up to 8193; templates that may be admitted are cut at 2049 per bulk in the quick tier, 8193 in the thorough one); configured request headers / URIs / hosts of the listener (cut at 1025 entries, inserted before / in the middle of / after the ordinary ones; HEAD accepts them), the size of one configured header value (up to 8193 bytes), unconfigured headers per request (up to 8193) and the size of one request header (up to 8193 bytes); labels scale:<what>:<bucket>, tallied in the evidence's extra block. FAULT INJECTION (about one case in 4; ONE request of the case is served while one dependency of the handler fails, the requests after it run with the fault lifted; such cases run in a working directory that HAS the decoy page pkg/handlers/404.html - the harness's own never had it): (1) the request BODY cannot be read completely - in-process Request.Body is a reader that delivers k bytes of the registration and then fails (a connection error; io.ErrUnexpectedEOF with a Content-Length announcing more than is delivered), or the announced Content-Length is smaller than what is sent (the body ends there); over a REAL socket (httptest.Server around the listener's gin engine, raw bytes written by the harness, the request net/http hands over verified against the delivery model - otherwise the same fault in-process): Content-Length larger than sent then FIN, or then RST (SO_LINGER 0; incomplete bodies only, the answer is unobservable and admission / side effects are judged), a chunked body whose next chunk-size line is garbage, a chunked body cut by FIN before the terminating chunk or inside a chunk (1-3 chunks), Content-Length smaller than sent with the rest pipelined behind the request; the break happens once the handler is running; k = 0, 1, the agent header's edges (11..21), anywhere, all but one byte, and in 40% THE WHOLE BODY (the read fails after everything was delivered); (2) the RESPONSE WRITER fails: its Write takes k of {0,1,2,3,17,145} bytes and then errors for good; (3) the DECOY PAGE file is missing / is a directory / the working directory is elsewhere during that request. The faulted request keeps its generated class or (1/3) is redrawn canonical / with exactly one mutation, so every request class (matching, each single violation, several, grey, GET/PUT/HEAD) meets the faults. Oracle unchanged, with HEAD's rule for a failed step (verified by experiment): verdict and answer headers do not depend on whether the body could be read or the answer written - body complete (also when the read then fails) => served like any other request: admitted iff the profile is satisfied, 200 + reply + every response header + sender address (over a socket the connection's own address); body incomplete => a request violating the profile gets the decoy 404 and nothing changes, a request matching it reaches the agent protocol, which may refuse the truncated registration (404, no session, no event) but the answer still carries every configured response header except the names the decoy sets itself (Server, Content-Type, X-Havoc); writer failed => status and headers as they went out are the ordinary ones, the body is a prefix, an admitted request has exactly one session; decoy page unavailable => 404 and nothing changed; decoy page available (every request of such a case but the one under a page fault) => every rejected POST and every GET carries Server: nginx, Content-Type text/html and the page byte for byte (PUT / HEAD: no route, status only). A Content-Length entry of the Headers list is matched against the Content-Length the request announces (none when chunked). Labels fault:<dependency>:<operation>:<how>[:<via>]@<matching|non-matching|grey>, fault-step:<dependency>@<request class>, fault-body:*; tallies and socket delivery counts in the evidence's extra block. Non-trivial: >=1 configured constraint and a request that satisfies all or violates exactly one; distinct = (constraint bucket, redirector, config feature, verdict kind of the first non-trivial request)",
 		Gen:  gen, Check: check, Classify: classify,
 		Assumptions: []string{
 			"requests are delivered in-process through GinEngine.ServeHTTP with canonical header names and trimmed values, as net/http's server delivers them",
@@ -1344,6 +1395,7 @@ func TestC12a(t *testing.T) {
 			"a request that differs from the canonical form only in the two documented ignored headers counts as satisfying",
 			"admission depends on method, URI, user agent and the configured request headers only (statement; HEAD reads nothing else): Request.Host (unless the Headers list has a Host entry), HostHeader, Hosts, proxy, TLS and further request headers do not change the verdict",
 			"behind a redirector a request always carries X-Forwarded-For with a single address",
+			"fault injection: what a failed step means is HEAD's behaviour (a failed body read does not end the request, the handler carries on with the bytes it has; the agent protocol refuses every strict prefix of a registration; a missing decoy page leaves a bare 404); after a connection reset only admission and side effects are judged; a request net/http's server would not deliver as the model says takes its fault in-process; cases run one after the other in a process (the working directory is process-wide)",
 		},
 	})
 }
